@@ -102,6 +102,29 @@ fn main() {
                 std::process::exit(2);
             }
         },
+        "fuzz-witness" => {
+            // print the replayable witness for a libFuzzer artefact
+            let data = std::fs::read(args.get(2).cloned().unwrap_or_else(|| usage())).expect("read artefact");
+            println!("{}", json!({"property": "C01", "seed": 0, "witness": stunmon::fuzz::witness(&data)}));
+        }
+        "gen-corpus" => {
+            // seed corpus for the fuzz target: grammar-generated messages and mutants
+            let dir = args.get(2).cloned().unwrap_or_else(|| usage());
+            let n: u64 = args.get(3).and_then(|s| s.parse().ok()).unwrap_or(200);
+            let seed: u64 = args.get(4).and_then(|s| s.parse().ok()).unwrap_or(0);
+            std::fs::create_dir_all(&dir).expect("corpus dir");
+            let mut rng = stunmon::prng::Rng::from_parts(seed, "corpus", 0, 0);
+            for i in 0..n {
+                let (b, _) = stunmon::gen::msg::gen_message(&mut rng, 5);
+                let b = if i % 3 == 2 { stunmon::gen::msg::mutate(&mut rng, &b, None) } else { b };
+                if b.len() > 4000 {
+                    continue;
+                }
+                let mut data = vec![rng.byte(), rng.byte()];
+                data.extend_from_slice(&b);
+                std::fs::write(format!("{dir}/seed-{i:05}"), data).expect("write corpus file");
+            }
+        }
         "merge-keys" => {
             let mut set = std::collections::HashSet::new();
             for f in &args[2..] {
